@@ -398,8 +398,8 @@ def project(case, o, rid_count):
          "headers": [(unhex(k), unhex(v)) for k, v in o.get("resp_headers") or [] if unhex(k) not in DROP_CLIENT],
          "body": unhex(o.get("resp_body") or ""), "hit": bool(o.get("hit")), "svc": SVC_ID.get(o.get("svc"), 0),
          "method": b"", "target": b"", "host": b"", "theaders": [], "tbody": b"", "rid_unique": False, "start_in_window": False}
-    if o.get("err"):
-        p["status"] = 0
+    # an error after the status line (e.g. the server resets the connection after a 400 while request body
+    # bytes are unread) leaves status/headers as read; a truncated body then shows as a body mismatch
     if p["hit"]:
         parts = unhex(o["req_line"]).split(b" ")
         if len(parts) == 3 and parts[2] == b"HTTP/1.1":
@@ -433,8 +433,8 @@ def case_term(case, pr):
         str_lit(unhex(case["_body"])), bool_lit(case["tls"]))
     r = case["resp"]
     gz = "None" if r["_gunzipped"] is None else "(Some %s)" % str_lit(unhex(r["_gunzipped"]))
-    rs = "(mkResp %d %s %s %s)" % (r["status"], hdrs_lit([(unhex(n), unhex(v)) for n, v in r["headers"]]),
-                                   str_lit(unhex(r["_wire_body"])), gz)
+    rs = "(mkResp %d %s %s %s %s)" % (r["status"], hdrs_lit([(unhex(n), unhex(v)) for n, v in r["headers"]]),
+                                      str_lit(unhex(r["_wire_body"])), gz, bool_lit(r["framing"] == "chunked"))
     ob = "(mkObs %s %d %s %s %s %d %s %s %s %s %s %s %s)" % (
         str_lit(pr["client_ip"]), pr["status"], hdrs_lit(pr["headers"]), str_lit(pr["body"]), bool_lit(pr["hit"]), pr["svc"],
         str_lit(pr["method"]), str_lit(pr["target"]), str_lit(pr["host"]), hdrs_lit(pr["theaders"]), str_lit(pr["tbody"]),
@@ -459,7 +459,7 @@ def parse_failures5(txt):
 
 
 FINDING_BITS = {1: "C13-F1-invalid-pchar", 2: "C13-F2-content-type-sniffed", 4: "C13-F3-gzip-decoded",
-                8: "C13-F4-user-agent", 16: "C13-F5-connection-listed-request-id"}
+                8: "C13-F4-user-agent", 16: "C13-F5-connection-listed-request-id", 32: "C13-F6-304-content-type"}
 CLAUSE_BITS = {1: "method", 2: "path", 4: "query", 8: "host", 16: "end-to-end request headers", 32: "request body",
                64: "X-Forwarded-*", 128: "X-Request-Id", 256: "X-Request-Start", 512: "status", 1024: "response headers",
                2048: "response body"}
